@@ -411,6 +411,14 @@ def rule_predicates(fx, rep):
                 if isinstance(x_, tuple) and x_ and x_[0] == 'is_identity':
                     t_ = ('is_identity',)
                     return ('not', t_) if neg_ else t_
+                if isinstance(x_, tuple) and x_ and x_[0] == 'is_zero' and len(x_) >= 2 and isinstance(x_[1], Sum):
+                    # the residual form: y^2 - x^3 - b == 0 (either sign)
+                    want_diff = Sum.of(y2).add(want_rhs.scale(-1))
+                    if x_[1] == want_diff or x_[1] == want_diff.scale(-1):
+                        t_ = ('curve-eq',)
+                        return ('not', t_) if neg_ else t_
+                    bad.append('tests %r for zero; expected y^2 - x^3 - b' % (x_[1],))
+                    return ('other-comparison',)
                 return term
             res_n = []
             for pth, ret, outs in res3:
